@@ -715,6 +715,30 @@ func runDocument(in docInput) (cases []vlib.Case, status string) {
 			cases = append(cases, vlib.Case{Kind: "gather", Coq: fmt.Sprintf("KGather %s %s %s", vlib.Bool(exact), vlib.List(bs), mapS(vp, cPage)),
 				Desc: descBase(map[string]interface{}{"gathered": vp, "geometry_compared": exact}), Tags: gtags, Nontrivial: nb > 0})
 		}
+		// KGatherT: when an id / link / bookmark lies under a CSS transform, the same
+		// data with the tree and the own matrices: geometry under the transform stack
+		if !exact && finitePagesData(vp) {
+			var ts []string
+			under, depth, after, finite := 0, 0, false, true
+			for _, p := range doc.Pages {
+				s, st := dumpTree(document.VerifPageBox(p))
+				ts = append(ts, s)
+				under += st.underT
+				if st.maxDepth > depth {
+					depth = st.maxDepth
+				}
+				after = after || st.afterNested
+				finite = finite && st.finite
+			}
+			if finite && under > 0 {
+				ttags := append(append([]string(nil), tags...), "gather-transform", fmt.Sprintf("tf-depth=%d", depth))
+				if after {
+					ttags = append(ttags, "tf-info-after-nested")
+				}
+				cases = append(cases, vlib.Case{Kind: "gather-tf", Coq: fmt.Sprintf("KGatherT %s %s", vlib.List(ts), mapS(vp, cPage)),
+					Desc: descBase(map[string]interface{}{"gathered": vp, "boxes_under_transform": under, "transform_depth": depth}), Tags: ttags, Nontrivial: true})
+			}
+		}
 	}
 
 	// write
